@@ -20,12 +20,22 @@ Amt(cs)    == [i \in DOMAIN cs |-> Amount(cs[i])]
 HasBit(s, v) == (s \div v) % 2 = 1
 SetOf(cs, n) == {i \in Incs(cs) : HasBit(n, Amount(cs[i]))}
 
-\* a value read by a call with interval [inv, ret] is explained by a set S of increments
+\* a value read by a call with interval [inv, ret] lies between "everything completed before it began" and
+\* "everything started before it returned" (holds for any amounts) ...
+Bounded(cs, n, inv, ret) ==
+  /\ SumOver({i \in Incs(cs) : cs[i].ret < inv}, Amt(cs)) <= n
+  /\ n <= SumOver({i \in Incs(cs) : cs[i].inv < ret}, Amt(cs))
+\* ... and, when the amounts are distinct powers of two, is exactly the sum of such a set S
+Pow2 == {1, 2, 4, 8, 16, 32, 64, 128, 256, 512, 1024, 2048, 4096}
+NamesItsSet(cs) == /\ \A i \in Incs(cs) : Amount(cs[i]) \in Pow2
+                   /\ \A i, j \in Incs(cs) : i # j => Amount(cs[i]) # Amount(cs[j])
 Explained(cs, n, inv, ret) ==
-  LET S == SetOf(cs, n) IN
-  /\ n >= 0 /\ SumOver(S, Amt(cs)) = n
-  /\ \A i \in Incs(cs) : cs[i].ret < inv => i \in S       \* every increment completed before the read began
-  /\ \A i \in S : cs[i].inv < ret                          \* none started after it returned
+  /\ Bounded(cs, n, inv, ret)
+  /\ NamesItsSet(cs) =>
+       LET S == SetOf(cs, n) IN
+       /\ n >= 0 /\ SumOver(S, Amt(cs)) = n
+       /\ \A i \in Incs(cs) : cs[i].ret < inv => i \in S       \* every increment completed before the read began
+       /\ \A i \in S : cs[i].inv < ret                          \* none started after it returned
 
 Intervened(cs, r1, r2) == \E z \in Resets(cs) : ~(cs[z].ret < cs[r1].inv) /\ ~(cs[r2].ret < cs[z].inv)
 
